@@ -547,6 +547,11 @@ def g_nfah_incl(rng):
     return "nfah " + " ".join(steps)
 
 
+def g_nfah_cli(rng):
+    A, B = nfa_pair(rng)
+    return f"nfah def:{A.tok()} def:{B.tok()} incl:0:1"
+
+
 def g_nfah_ops(rng):
     A, B = nfa_pair(rng)
     # entry 2: numbers disjoint from A (for UnionDisjointStates); entry 3: same numbers as entry 2, other automaton
@@ -1160,7 +1165,7 @@ GENERATORS = {
     "mth": g_mth, "mthrc": g_mthrc,
     "tah_store": g_tah_store, "tah_hist": g_tah_hist,
     "lts": g_lts,
-    "nfah_incl": g_nfah_incl, "nfah_ops": g_nfah_ops, "nfah_hist": g_nfah_hist,
+    "nfah_incl": g_nfah_incl, "nfah_cli": g_nfah_cli, "nfah_ops": g_nfah_ops, "nfah_hist": g_nfah_hist,
     "incl": g_incl, "inclall": g_inclall, "union": g_union, "unionpre": g_unionpre, "uniondisj": g_uniondisj,
     "isect": g_isect, "isectbu": g_isectbu, "trim": g_trim, "cand": g_cand, "reduce": g_reduce, "simdown": g_simdown, "simup": g_simup,
     "compl": g_compl, "rename": g_rename,
